@@ -759,6 +759,72 @@ func main() {
 		w("Definition prog_writes_in_execution : list (string * string) :=\n  [%s].\n", strings.Join(rows, "; "))
 	}
 
+	// the synchronisation skeleton of the library: every channel operation, goroutine start, deferred call and mutex
+	// operation, per function (function literals are numbered within their function), in source order.  Model/Proto.v is the
+	// transition system of exactly these operations.
+	{
+		var rows []string
+		fnames := make([]string, 0, len(files))
+		for n := range files {
+			fnames = append(fnames, n)
+		}
+		sort.Strings(fnames)
+		for _, fn := range fnames {
+			if strings.HasSuffix(fn, "_test.go") || fn == "verif_export.go" {
+				continue
+			}
+			for _, d := range files[fn].Decls {
+				fd, ok := d.(*ast.FuncDecl)
+				if !ok || fd.Body == nil {
+					continue
+				}
+				lit := 0
+				var walk func(n ast.Node, where string)
+				walk = func(n ast.Node, where string) {
+					ast.Inspect(n, func(x ast.Node) bool {
+						add := func(what string) { rows = append(rows, fmt.Sprintf("(%s, %s)", q(where), q(what))) }
+						switch y := x.(type) {
+						case *ast.FuncLit:
+							lit++
+							walk(y.Body, fmt.Sprintf("%s/func%d", fd.Name.Name, lit))
+							return false
+						case *ast.GoStmt:
+							add("go")
+						case *ast.DeferStmt:
+							add("defer " + exprString(y.Call.Fun))
+							return false
+						case *ast.SendStmt:
+							add("send " + exprString(y.Chan))
+						case *ast.UnaryExpr:
+							if y.Op == token.ARROW {
+								add("recv " + exprString(y.X))
+							}
+						case *ast.SelectStmt:
+							add("select")
+						case *ast.CallExpr:
+							if id, ok := y.Fun.(*ast.Ident); ok && id.Name == "close" && len(y.Args) == 1 {
+								add("close " + exprString(y.Args[0]))
+							}
+							if se, ok := y.Fun.(*ast.SelectorExpr); ok {
+								switch se.Sel.Name {
+								case "Lock", "Unlock", "RLock", "RUnlock":
+									add(strings.ToLower(se.Sel.Name) + " " + exprString(se.X))
+								}
+							}
+						case *ast.RangeStmt:
+							if _, isChan := y.X.(*ast.Ident); isChan && y.Key == nil && y.Value == nil {
+								add("range " + exprString(y.X))
+							}
+						}
+						return true
+					})
+				}
+				walk(fd.Body, fd.Name.Name)
+			}
+		}
+		w("Definition sync_skeleton : list (string * string) :=\n  [%s].\n", strings.Join(rows, ";\n   "))
+	}
+
 	out := b.String()
 	old, _ := os.ReadFile(os.Args[2])
 	if string(old) != out {
